@@ -3,6 +3,7 @@ package chainsim
 import (
 	"context"
 	"fmt"
+	"os"
 	"sync"
 	"time"
 
@@ -13,6 +14,7 @@ import (
 
 	"github.com/oasisprotocol/oasis-core/go/common/crypto/signature"
 	"github.com/oasisprotocol/oasis-core/go/common/identity"
+	"github.com/oasisprotocol/oasis-core/go/common/persistent"
 	"github.com/oasisprotocol/oasis-core/go/consensus/cometbft/abci"
 	cmt "github.com/oasisprotocol/oasis-core/go/consensus/cometbft/api"
 	beaconApp "github.com/oasisprotocol/oasis-core/go/consensus/cometbft/apps/beacon"
@@ -26,6 +28,8 @@ import (
 	tmbeacon "github.com/oasisprotocol/oasis-core/go/consensus/cometbft/beacon"
 	tmroothash "github.com/oasisprotocol/oasis-core/go/consensus/cometbft/roothash"
 	genesis "github.com/oasisprotocol/oasis-core/go/genesis/api"
+	"github.com/oasisprotocol/oasis-core/go/upgrade"
+	upgradeAPI "github.com/oasisprotocol/oasis-core/go/upgrade/api"
 )
 
 // ReplicaConfig configures one replica.
@@ -57,6 +61,10 @@ type Replica struct {
 	mux    types.Application
 	cancel context.CancelFunc
 	ident  *identity.Identity
+	// upgrader is the node-local upgrade manager (on-disk replicas only): governance hands it
+	// the descriptors of passed upgrade proposals; its store is not part of consensus state.
+	upgrader upgradeAPI.Backend
+	pstore   *persistent.CommonStore
 
 	Height  int64 // last committed height
 	AppHash []byte
@@ -110,11 +118,43 @@ func (r *Replica) open() error {
 	if acfg.DataDir == "" {
 		acfg.DataDir = "/nonexistent-verif-memory-only"
 	}
-	srv, err := abci.NewApplicationServer(ctx, nil, acfg)
+	var upg upgradeAPI.Backend
+	var pstore *persistent.CommonStore
+	if r.Cfg.Dir != "" {
+		// The real upgrade manager over a persistent store in the replica's directory.
+		if err := os.MkdirAll(r.Cfg.Dir, 0o755); err != nil {
+			cancel()
+			return fmt.Errorf("replica dir: %w", err)
+		}
+		store, err := persistent.NewCommonStore(r.Cfg.Dir)
+		if err != nil {
+			cancel()
+			return fmt.Errorf("persistent store: %w", err)
+		}
+		if upg, err = upgrade.New(store, r.Cfg.Dir, false); err != nil {
+			store.Close()
+			cancel()
+			return fmt.Errorf("upgrade manager: %w", err)
+		}
+		pstore = store
+	}
+	var srv *abci.ApplicationServer
+	var err error
+	if upg != nil {
+		srv, err = abci.NewApplicationServer(ctx, upg, acfg)
+	} else {
+		srv, err = abci.NewApplicationServer(ctx, nil, acfg)
+	}
 	if err != nil {
+		if upg != nil {
+			upg.Close()
+			pstore.Close()
+		}
 		cancel()
 		return fmt.Errorf("NewApplicationServer: %w", err)
 	}
+	r.upgrader = upg
+	r.pstore = pstore
 	state := srv.State()
 	md := srv.MessageDispatcher()
 	rh := tmroothash.New(nil, tmroothash.NewStateQueryFactory(state))
@@ -189,6 +229,11 @@ func (r *Replica) closeLocked() {
 	r.srv.Stop()
 	r.srv.Cleanup()
 	r.cancel()
+	if r.upgrader != nil {
+		r.upgrader.Close()
+		r.pstore.Close()
+		r.upgrader, r.pstore = nil, nil
+	}
 	r.srv, r.mux = nil, nil
 }
 
